@@ -341,7 +341,7 @@ def check_contract_applies(F, rep, types):
     the contract traits, and that the Alpha form is an admissible target of the checked conversion (`IsWithinBounds<Mask = bool>`).  (Without `Alpha<X, T>: IsWithinBounds`, method
     resolution silently falls through Deref to the colour's impl and the alpha is never tested.)"""
     from .c04 import META, public_path
-    wdir = os.path.join(os.path.dirname(os.path.dirname(os.path.abspath(__file__))), "witness_c03")
+    wdir = os.path.join(os.path.dirname(os.path.dirname(os.path.abspath(__file__))), "witness_c03") if not facts.LANE else os.path.join(facts.CACHE, "lane" + facts.LANE, "witness_c03")
     os.makedirs(os.path.join(wdir, "src"), exist_ok=True)
     lines = ["// generated by rules/c03.py from the facts of /repo's current tree - do not edit", "#![allow(unused_imports, dead_code)]",
              "use palette::{Alpha, Clamp, ClampAssign, IsWithinBounds};", "use palette::convert::TryFromColor;",
@@ -384,8 +384,8 @@ def check_contract_applies(F, rep, types):
     lock = os.path.join(facts.REPO, "Cargo.lock")
     if os.path.exists(lock):
         shutil.copy(lock, os.path.join(wdir, "Cargo.lock"))
-    env = dict(os.environ, CARGO_TARGET_DIR=os.path.join(facts.CACHE, "tgt", "witness_c03"), CARGO_NET_OFFLINE="true", RUSTFLAGS="-Awarnings")
-    with facts.Lock("witness_c03"):
+    env = dict(os.environ, CARGO_TARGET_DIR=os.path.join(facts.CACHE, "tgt", "witness_c03" + facts.LANE), CARGO_NET_OFFLINE="true", RUSTFLAGS="-Awarnings")
+    with facts.Lock("witness_c03" + facts.LANE):
         r = subprocess.run(["cargo", "+nightly", "check", "--offline", "-q", "--message-format=short"], cwd=wdir, env=env,
                            stdout=subprocess.PIPE, stderr=subprocess.STDOUT, text=True)
     failed = {}
